@@ -77,8 +77,13 @@ void try_parse_icmp_extensions(InputMemoryStream& stream,
         return;
     }
     if (ICMPExtensionsStructure::validate_extensions(extensions_ptr, extensions_size)) {
-        extensions = ICMPExtensionsStructure(extensions_ptr, extensions_size);
-        stream.size(stream.size() - extensions_size);
+        ICMPExtensionsStructure parsed(extensions_ptr, extensions_size);
+        // An extension structure holds at least one object (RFC 4884, section 7). A bare
+        // header would never be serialized back, so leave it as part of the payload
+        if (!parsed.extensions().empty()) {
+            extensions = parsed;
+            stream.size(stream.size() - extensions_size);
+        }
     }
 }
 
